@@ -140,3 +140,9 @@ META.update({
         text="Exploration: every API call (alone or two at the same instant) against an adversarial scripted gateway whose behaviour per datagram is drawn (silence at any step, wrong IDs/types, unsolicited packets, DISCONNECT, undecodable datagrams, duplicates), with and without keep-alive, with time advances around keep-alive ticks; oracle: each call returns within its bound on the virtual clock, and after Close or an unsolicited gateway DISCONNECT a goroutine census finds no client goroutine; goroutines still blocked at the end of a case are reported by the bubble itself.",
         note=_CL_NOTE + " Hangs are decided up to 10x the bound.", technique="stateful PBT with an adversarial peer; bounded-liveness oracle on a virtual clock; goroutine census"),
 })
+CHECKS["C33"] = dict(parts=[part("client-keepalive", "cl", "TestC33", 3000, 200_000)])
+META.update({
+    "C33": dict(
+        text="Exploration: real client with KeepAlive 2-30 s against a scripted gateway that drops selected ping transmissions within the retry budget; API calls (Sleep, Disconnect, Publish, Subscribe, Register, reconnect) at times drawn relative to the keep-alive period (exact tick, +-1 ns, +-1 ms, mid-period); a client-state model replayed over the timeline checks: consecutive keep-alive PINGREQs at most KeepAlive apart while active, none (original or retransmitted) while asleep or disconnected, and every concurrent call returns nil.",
+        note=_CL_NOTE + " Events at exactly the instant of a state change are not ordered by the property and are tolerated.", technique="timed stateful PBT on a virtual clock with a client-state reference model"),
+})
